@@ -480,24 +480,44 @@ func determinismHistory(run *ev.Run, c int, tmp string) {
 		compareExec(run, j, r, gen, r1, "later-process")
 		run.Count("replicas-compared", 1)
 	}
-	// R2: on-disk DB, application closed and reopened at block boundaries, once across process exit
+	// R2: on-disk DB, application closed and reopened at block boundaries, and several times across process exit
+	// (a new process has lost every package variable and cache; the DB is all it has)
 	every := tierN(run.Tier, 7, 1)
 	dbdir := filepath.Join(tmp, "db")
-	mid := last / 2
-	r2a, err := runReplica(nil, "--journal", jpath, "--seed", seed, "--mode", "restart", "--every", fmt.Sprint(every), "--dbdir", dbdir, "--upto", fmt.Sprint(mid), "--out", filepath.Join(tmp, "r2a.json"))
-	if err != nil {
-		run.Inconc("replica restart (first process): %v", err)
-	} else {
-		r2b, err := runReplica(nil, "--journal", jpath, "--seed", seed, "--mode", "restart", "--every", fmt.Sprint(every), "--dbdir", dbdir, "--from", fmt.Sprint(mid), "--out", filepath.Join(tmp, "r2b.json"))
-		if err != nil {
-			run.Inconc("replica restart (second process): %v", err)
-		} else {
-			r2 := &execObs{Kind: "restart", Blocks: append(r2a.Blocks, r2b.Blocks...), Exports: r2b.Exports, ExportErr: r2b.ExportErr, Restarts: r2a.Restarts + r2b.Restarts + 1}
-			compareExec(run, j, r, gen, r2, fmt.Sprintf("restart-every-%d-on-disk", every))
-			run.Count("restart-points", int64(r2.Restarts))
-			run.Count("replicas-compared", 1)
-			run.Sample("restart-replica", map[string]any{"restarts": r2.Restarts, "blocks": len(r2.Blocks), "process_exit_at_height": mid})
+	segments := tierN(run.Tier, 6, 16)
+	r2 := &execObs{Kind: "restart"}
+	var exits []int64
+	from := int64(0)
+	failed := false
+	for sgm := 1; sgm <= segments && !failed; sgm++ {
+		upto := last * int64(sgm) / int64(segments)
+		args := []string{"--journal", jpath, "--seed", seed, "--mode", "restart", "--every", fmt.Sprint(every), "--dbdir", dbdir, "--out", filepath.Join(tmp, fmt.Sprintf("r2-%d.json", sgm))}
+		if from > 0 {
+			args = append(args, "--from", fmt.Sprint(from))
 		}
+		if sgm < segments {
+			args = append(args, "--upto", fmt.Sprint(upto))
+		}
+		part, err := runReplica(nil, args...)
+		if err != nil {
+			run.Inconc("replica restart (process %d): %v", sgm, err)
+			failed = true
+			break
+		}
+		r2.Blocks = append(r2.Blocks, part.Blocks...)
+		r2.Restarts += part.Restarts + 1
+		r2.Exports, r2.ExportErr = part.Exports, part.ExportErr
+		if sgm < segments {
+			exits = append(exits, upto)
+		}
+		from = upto
+	}
+	if !failed {
+		compareExec(run, j, r, gen, r2, fmt.Sprintf("restart-every-%d-on-disk", every))
+		run.Count("restart-points", int64(r2.Restarts))
+		run.Count("process-exits", int64(len(exits)))
+		run.Count("replicas-compared", 1)
+		run.Sample("restart-replica", map[string]any{"restarts": r2.Restarts, "blocks": len(r2.Blocks), "process_exits_after_heights": exits})
 	}
 	// R3: other scheduler / GC settings
 	r3, err := runReplica([]string{"GOMAXPROCS=2", "GOGC=10"}, "--journal", jpath, "--seed", seed, "--mode", "later", "--out", filepath.Join(tmp, "r3.json"))
